@@ -108,10 +108,90 @@ mod verif_replay_c10 {
 '''
 
 
+def check_key_actor(rep, ctx):
+    """The key actor: after SetKey(k1), SetKey(k2) the reply to GetKey is k2 as a whole (id and secret of ONE key), whatever k1 was;
+    after SetKey(k) alone it is k. Messages are pinned by hooks on Receiver::recv; the replies are read from the oneshot send events."""
+    w = ctx.method("KeyKeeperSharedState", "start_new")
+    body = w + "::{closure#0}"
+    if body not in ctx.idx.files or "KeyKeeperAction" not in ctx.enums:
+        rep.add(Query("key actor located", "inconclusive", "start_new::{closure#0} / KeyKeeperAction not found", 0, "mirsym"))
+        return
+    ix_set, ix_get = ctx.enums["KeyKeeperAction"].index("SetKey"), ctx.enums["KeyKeeperAction"].index("GetKey")
+    rep.functions_encoded.append(body + " [message sequences SetKey,GetKey and SetKey,SetKey,GetKey]")
+    for seq in ([ix_set, ix_get], [ix_set, ix_set, ix_get]):
+        def hook(engine, ev, seq=seq):
+            if ev.kind == "await" and ev.callee.endswith("recv"):
+                n = sum(1 for e in engine.events if e.kind == "await" and e.callee.endswith("recv"))
+                if n <= len(seq):
+                    engine.require(ev.ret.discr() == 1)
+                    engine.require(ev.ret.child(("v", "Some", 0)).discr() == seq[n - 1])
+                else:
+                    engine.require(ev.ret.discr() == 0)
+        eng = ctx.engine(loop_bound=len(seq), max_paths=4000)
+        eng.event_hook = hook
+        paths = eng.explore(body)
+        n_ok = n = 0
+        bad = ""
+        for r in paths:
+            if r.status not in ("return", "cut"):
+                continue
+            rc = [e for e in r.events if e.kind == "await" and e.callee.endswith("recv")]
+            if len(rc) < len(seq):
+                continue
+            sends = [e for e in r.events if e.kind == "call" and re.search(r"oneshot::Sender.*::send$", e.callee) and r.events.index(e) > r.events.index(rc[len(seq) - 1])]
+            if not sends:
+                continue
+            n += 1
+            last_set = rc[len(seq) - 2].ret.child(("v", "Some", 0)).child(("v", "SetKey", 0))
+            reply = sends[0].rargs[1]
+            if same_origin(reply, last_set):
+                n_ok += 1
+            else:
+                bad = "reply %r is not the key of the last SetKey %r" % (reply, last_set)
+        name = "key actor: after %s the reply to GetKey is the key of the last SetKey as a whole (id and secret of one key)" % ", ".join("SetKey(k%d)" % (i + 1) for i in range(len(seq) - 1))
+        if n == 0:
+            rep.add(Query(name, "inconclusive", "no path with a GetKey reply (%d paths)" % len(paths), 0, "mirsym", key="C10.actor"))
+        else:
+            rep.add(Query(name, "holds" if n_ok == n else "violated", bad[:300] or "%d paths" % n, 0, "mirsym+z3", key="C10.actor:%d" % len(seq), reproduced=None))
+
+
+ACTOR_REPLAY = '''
+#[cfg(test)]
+mod verif_replay_c10_actor {
+    use crate::key_keeper::key::Key;
+    use crate::shared_state::key_keeper_wrapper::KeyKeeperSharedState;
+    fn key(guid: &str, value: &str, inc: Option<u32>) -> Key { let mut k = Key::empty(); k.guid = guid.to_string(); k.key = value.to_string(); k.incarnationId = inc; k }
+    #[tokio::test(flavor = "current_thread")]
+    async fn c10_a_rotation_replaces_id_and_secret_together() {
+        for (i1, i2) in [(None, None), (Some(1), Some(1)), (Some(1), Some(2)), (None, Some(1))] {
+            let ks = KeyKeeperSharedState::start_new();
+            ks.update_key(key("guid-A", "AAAA", i1)).await.unwrap();
+            ks.update_key(key("guid-B", "BBBB", i2)).await.unwrap();
+            let (g, v) = ks.get_current_key_guid_and_value().await.unwrap();
+            assert!(g.as_deref() == Some("guid-B") && v.as_deref() == Some("BBBB"), "after a rotation (incarnations {:?} -> {:?}) the actor holds id {:?} with secret {:?}", i1, i2, g, v);
+        }
+    }
+}
+'''
+
+
 def check(rep, tier, seed):
     ctx = Ctx("agent")
     rep.extra["mir_dump"] = {"cache_hit": ctx.dump.cache_hit, "tree_hash": ctx.dump.hash, "seconds": round(ctx.dump.seconds, 1)}
     setters = 2 if tier == "quick" else 3
+    check_key_actor(rep, ctx)
+    if any(q.status == "violated" and (q.key or "").startswith("C10.actor") for q in rep.queries):
+        import replay as _rp
+        res_a, _o = _rp.run_rust_tests("azure-proxy-agent", [("proxy_agent/src/shared_state/key_keeper_wrapper.rs", ACTOR_REPLAY)], "verif_replay_c10_actor", no_args=True)
+        st_a = (res_a or {}).get("c10_a_rotation_replaces_id_and_secret_together")
+        pa = save_replay("C10", "actor_rotation.rs", "// append to proxy_agent/src/shared_state/key_keeper_wrapper.rs; run the whole azure-proxy-agent test binary\n" + ACTOR_REPLAY)
+        for q in rep.queries:
+            if q.status == "violated" and (q.key or "").startswith("C10.actor"):
+                q.replay = pa
+                q.detail += " || native replay on the real actor: %s" % st_a
+                if st_a == "FAILED":
+                    q.reproduced = True
+                    rep.traces_validated += 1
     cex = []
     # site 1: the proxied route
     # the key getters of the wrapper are inlined down to the single actor round-trip (get_key = one GetKey message)
@@ -159,19 +239,27 @@ def check(rep, tier, seed):
         paths = eng.explore(w + "::{closure#0}")
         rep.functions_encoded.append(w + "::{closure#0}")
         done = False
+        shapes = set()
         for r in paths:
             gets = [e for e in r.events if e.kind == "call" and re.search(r"hyper_client::get$|(^|::)get$", e.callee) and len(e.rargs) >= 4]
-            if not gets or done:
-                continue
-            ev_g = await_source(r.events, gets[0].rargs[2])
-            ev_v = await_source(r.events, gets[0].rargs[3])
-            if ev_g is None or ev_v is None:
-                continue          # a path on which no key is latched: nothing is signed
-            done = True
-            c = schedule_query(rep, "%s::%s" % (ty, fn), ev_v, ev_g, r.events, setters)
-            if c:
-                c["first_is_value"] = r.events.index(ev_v) < r.events.index(ev_g)
-                cex.append(c)
+            # EVERY signed request the function can send (a retry, a second call ...), not only the first one
+            for k, g in enumerate(gets):
+                ev_g = await_source(r.events, g.rargs[2])
+                ev_v = await_source(r.events, g.rargs[3])
+                if ev_g is None and ev_v is None:
+                    continue          # a request on which no key is latched: nothing is signed
+                lit_none = [a for a in (g.rargs[2], g.rargs[3]) if isinstance(origin(a), Agg) and origin(a).variant == "None"]
+                if lit_none:
+                    continue          # id or secret is the literal None on this path: build_request signs only when both are present
+                shape = (k, g.site, "same" if ev_g is ev_v else "two", None if ev_g is None else ev_g.site, None if ev_v is None else ev_v.site)
+                if shape in shapes:
+                    continue
+                shapes.add(shape)
+                done = True
+                c = schedule_query(rep, "%s::%s%s" % (ty, fn, "" if k == 0 else " (request #%d of the path)" % (k + 1)), ev_v, ev_g, r.events, setters)
+                if c:
+                    c["first_is_value"] = r.events.index(ev_v) < r.events.index(ev_g)
+                    cex.append(c)
         if not done:
             rep.add(Query("%s::%s: signing call located" % (ty, fn), "inconclusive", "no hyper_client::get call with key arguments found", 0, "mirsym"))
     # replay the schedules on the real actor
